@@ -1,3 +1,4 @@
+#![feature(pattern)]
 #![allow(unused_imports, dead_code, unused_variables, unused_mut, unreachable_code, unused_parens)]
 // Unit `naming` (C16, C10): FileSpec::{fixed_name_part, as_pathbuf}, append_underscore_if_not_empty,
 // TimestampCfg::get_timestamp (src/parameters/file_spec.rs) against the documented pattern
@@ -5,6 +6,7 @@
 use vstd::prelude::*;
 verus! {
 //@ include prelude/types.rs
+//@ include prelude/strings.rs
 
 #[verifier::external_type_specification]
 #[verifier::external_body]
@@ -27,6 +29,40 @@ pub broadcast axiom fn ax_as_name_string(s: String)
     ensures #[trigger] as_name::<String>(s) == s@;
 pub assume_specification[ String::reserve ](s: &mut String, additional: usize)
     ensures final(s)@ == old(s)@;
+
+// ---- decomposition of a path (std::path): parent / file stem / extension as oracles over the path's text ------
+#[verifier::external_type_specification]
+#[verifier::external_body]
+pub struct ExOsStr(std::ffi::OsStr);
+pub uninterp spec fn path_text(p: &std::path::Path) -> Seq<char>;
+pub assume_specification[ <std::path::PathBuf as core::ops::Deref>::deref ](p: &std::path::PathBuf) -> (r: &std::path::Path)
+    ensures path_text(r) == pathbuf_view(p);
+pub uninterp spec fn parent_of(t: Seq<char>) -> Option<Seq<char>>;
+pub uninterp spec fn stem_of(t: Seq<char>) -> Option<Seq<char>>;
+pub uninterp spec fn ext_of(t: Seq<char>) -> Option<Seq<char>>;
+pub uninterp spec fn osstr_text(s: &std::ffi::OsStr) -> Seq<char>;
+pub uninterp spec fn cow_text(c: std::borrow::Cow<'_, str>) -> Seq<char>;
+pub uninterp spec fn fs_is_dir(t: Seq<char>) -> bool;
+pub assume_specification[ std::path::Path::is_dir ](p: &std::path::Path) -> (r: bool)
+    ensures r == fs_is_dir(path_text(p));
+pub assume_specification[ std::path::Path::parent ](p: &std::path::Path) -> (r: Option<&std::path::Path>)
+    ensures (r is Some) == (parent_of(path_text(p)) is Some), r is Some ==> path_text(r->Some_0) == parent_of(path_text(p))->Some_0;
+pub assume_specification[ std::path::Path::to_path_buf ](p: &std::path::Path) -> (r: std::path::PathBuf)
+    ensures pathbuf_view(&r) == path_text(p);
+pub assume_specification[ std::path::Path::file_stem ](p: &std::path::Path) -> (r: Option<&std::ffi::OsStr>)
+    ensures (r is Some) == (stem_of(path_text(p)) is Some), r is Some ==> osstr_text(r->Some_0) == stem_of(path_text(p))->Some_0;
+pub assume_specification[ std::path::Path::extension ](p: &std::path::Path) -> (r: Option<&std::ffi::OsStr>)
+    ensures (r is Some) == (ext_of(path_text(p)) is Some), r is Some ==> osstr_text(r->Some_0) == ext_of(path_text(p))->Some_0;
+pub assume_specification[ std::ffi::OsStr::to_string_lossy ](s: &std::ffi::OsStr) -> (r: std::borrow::Cow<'_, str>)
+    ensures cow_text(r) == osstr_text(s);
+pub broadcast axiom fn ax_cow_to_string(c: &std::borrow::Cow<'_, str>, r: String)
+    ensures #[trigger] vstd::string::to_string_from_display_ensures::<std::borrow::Cow<'_, str>>(c, r) ==> r@ == cow_text(*c);
+/// the file name std::path takes apart into stem and extension
+pub open spec fn name_of(stem: Seq<char>, ext: Option<Seq<char>>) -> Seq<char> { match ext { Some(e) => stem.push('.') + e, None => stem } }
+/// TRUSTED (std::path): a path with a file name is its parent joined with stem[.extension]
+pub broadcast axiom fn ax_path_decomposition(t: Seq<char>)
+    requires (#[trigger] parent_of(t)) is Some, stem_of(t) is Some,
+    ensures path_join(parent_of(t)->Some_0, name_of(stem_of(t)->Some_0, ext_of(t))) == t;
 
 /// the program's start time (C16 "[_starttime]"), and the text a time stamp renders to under a strftime format
 pub uninterp spec fn program_start() -> chrono::DateTime<chrono::Local>;
@@ -57,11 +93,30 @@ pub mod deferred_now {
     }
 }
 
+pub mod flexi_error {
+    pub enum FlexiLoggerError { OutputBadFile, Other }
+}
+pub mod into_axioms {
+    use super::*;
+    use std::path::PathBuf;
+    /// oracles: the text / path an `Into<String>` / `Into<PathBuf>` argument converts to
+    pub uninterp spec fn into_string<S>(s: S) -> Seq<char>;
+    pub uninterp spec fn into_path<P>(p: P) -> Seq<char>;
+    pub broadcast axiom fn ax_into_string_str(s: &str)
+        ensures #[trigger] into_string::<&str>(s) == s@;
+    /// `Into::into` is a function of its argument (assumption on the caller's `Into` implementations)
+    pub broadcast axiom fn ax_into_string<S: Into<String>>(s: S, r: String)
+        ensures #[trigger] call_ensures(<S as Into<String>>::into, (s,), r) ==> r@ == into_string::<S>(s);
+    pub broadcast axiom fn ax_into_path<P: Into<PathBuf>>(p: P, r: PathBuf)
+        ensures #[trigger] call_ensures(<P as Into<PathBuf>>::into, (p,), r) ==> pathbuf_view(&r) == into_path::<P>(p);
+}
 pub mod file_spec {
     use super::*;
+    use super::into_axioms::*;
+    use super::flexi_error::FlexiLoggerError;
     use super::deferred_now::DeferredNow;
     use std::path::{Path, PathBuf};
-    broadcast use ax_as_name_string;
+    broadcast use group_pat_seq, ax_as_name_string, ax_into_string, ax_into_path, ax_into_string_str, ax_cow_to_string, ax_path_decomposition;
 
     //@ item src/parameters/file_spec.rs struct FileSpec
     //@   dropattr #[derive
@@ -133,6 +188,75 @@ pub mod file_spec {
     //@   ret r
     //@   props C16
     //@   ens[uses_timestamp.post] r == self.v_ts_yes()
+        /// the configuration as a tuple of views (for the setters: each changes exactly the part it names)
+        pub closed spec fn cfg(&self) -> (Seq<char>, Option<Seq<char>>, Option<Seq<char>>, Seq<char>, bool) {
+            (self.basename@, ostring(self.o_discriminant), ostring(self.o_suffix), pathbuf_view(&self.directory), self.use_utc)
+        }
+        /// the time-stamp decision: None = not decided yet (TimestampCfg::Default)
+        pub closed spec fn ts_decision(&self) -> Option<bool> { match self.timestamp_cfg { TimestampCfg::Default => None, TimestampCfg::Yes => Some(true), TimestampCfg::No => Some(false) } }
+    //@ fn src/parameters/file_spec.rs impl FileSpec / fn try_from
+    //@   ret r
+    //@   props C16
+    //@   closure ~s.to_string_lossy().to_string() ## sig |s: &std::ffi::OsStr| -> (r: String)
+    //@   closure ~s.to_string_lossy().to_string() ## ens r@ == osstr_text(s)
+    //@   req[try_from.pre.documented_panic] parent_of(into_path(p)) is Some && stem_of(into_path(p)) is Some
+    //@   ens[try_from.post.dir] r is Err <==> fs_is_dir(into_path(p))
+    //@   ens[try_from.post.denotes_the_path] r is Ok ==> r->Ok_0.path_spec(None) == into_path(p)
+    //@ fn src/parameters/file_spec.rs impl FileSpec / fn basename
+    //@   ret r
+    //@   props C16
+    //@   rule R10b 1
+    //@   ens[FileSpec::basename.post] r.cfg() == (into_string(basename), self.cfg().1, self.cfg().2, self.cfg().3, self.cfg().4) && r.ts_decision() == self.ts_decision()
+    //@ fn src/parameters/file_spec.rs impl FileSpec / fn suppress_basename
+    //@   ret r
+    //@   props C16
+    //@   ens[FileSpec::suppress_basename.post] r.cfg().0 == ""@ && r.cfg().1 == self.cfg().1 && r.cfg().2 == self.cfg().2 && r.cfg().3 == self.cfg().3 && r.cfg().4 == self.cfg().4 && r.ts_decision() == self.ts_decision()
+    //@ fn src/parameters/file_spec.rs impl FileSpec / fn directory
+    //@   ret r
+    //@   props C16
+    //@   rule R10b 1
+    //@   ens[FileSpec::directory.post] r.cfg() == (self.cfg().0, self.cfg().1, self.cfg().2, into_path(directory), self.cfg().4) && r.ts_decision() == self.ts_decision()
+    //@ fn src/parameters/file_spec.rs impl FileSpec / fn o_discriminant
+    //@   ret r
+    //@   props C16
+    //@   rule R10b 1
+    //@   rule R19 1
+    //@   ens[FileSpec::o_discriminant.post] r.cfg() == (self.cfg().0, (match o_discriminant { Some(d) => Some(into_string(d)), None => None }), self.cfg().2, self.cfg().3, self.cfg().4) && r.ts_decision() == self.ts_decision()
+    //@ fn src/parameters/file_spec.rs impl FileSpec / fn discriminant
+    //@   ret r
+    //@   props C16
+    //@   ens[FileSpec::discriminant.post] r.cfg() == (self.cfg().0, Some(into_string(discriminant)), self.cfg().2, self.cfg().3, self.cfg().4) && r.ts_decision() == self.ts_decision()
+    //@ fn src/parameters/file_spec.rs impl FileSpec / fn o_suffix
+    //@   ret r
+    //@   props C16
+    //@   rule R10b 1
+    //@   rule R19 1
+    //@   ens[FileSpec::o_suffix.post] r.cfg() == (self.cfg().0, self.cfg().1, (match o_suffix { Some(d) => Some(into_string(d)), None => None }), self.cfg().3, self.cfg().4) && r.ts_decision() == self.ts_decision()
+    //@ fn src/parameters/file_spec.rs impl FileSpec / fn suffix
+    //@   ret r
+    //@   props C16
+    //@   ens[FileSpec::suffix.post] r.cfg() == (self.cfg().0, self.cfg().1, Some(into_string(suffix)), self.cfg().3, self.cfg().4) && r.ts_decision() == self.ts_decision()
+    //@ fn src/parameters/file_spec.rs impl FileSpec / fn use_timestamp
+    //@   ret r
+    //@   props C16
+    //@   rule R10b 1
+    //@   ens[FileSpec::use_timestamp.post] r.cfg() == self.cfg() && r.ts_decision() == Some(use_timestamp)
+    //@ fn src/parameters/file_spec.rs impl FileSpec / fn suppress_timestamp
+    //@   ret r
+    //@   props C16
+    //@   ens[FileSpec::suppress_timestamp.post] r.cfg() == self.cfg() && r.ts_decision() == Some(false)
+    //@ fn src/parameters/file_spec.rs impl FileSpec / fn get_suffix
+    //@   ret r
+    //@   props C16,C14
+    //@   ens[FileSpec::get_suffix.post] ostring(r) == self.cfg().2
+    //@ fn src/parameters/file_spec.rs impl FileSpec / fn get_directory
+    //@   ret r
+    //@   props C16
+    //@   ens[FileSpec::get_directory.post] pathbuf_view(&r) == self.cfg().3
+    //@ fn src/parameters/file_spec.rs impl FileSpec / fn used_directory
+    //@   ret r
+    //@   props C16
+    //@   ens[FileSpec::used_directory.post] pathbuf_view(&r) == self.cfg().3
     //@ fn src/parameters/file_spec.rs impl FileSpec / fn if_default_use_timestamp
     //@   props C16
     //@   ens[if_default_use_timestamp.post] final(self).decided(old(self), use_timestamp)
